@@ -117,6 +117,31 @@ def el_random(R, count, maxlen=60):
         yield concretise(ab)
 
 
+def el_chrono(R, count, maxlen=40):
+    """agenda-like histories: requests come in chronological order (each due no earlier than the one before, ties
+    included), pops in between; after a pop, some requests are due together with (or between) events that are still
+    pending -- a timer re-armed for the instant of another pending one -- and the agenda goes on from there"""
+    for i in range(count):
+        now, last, q, ops, tag = 0.0, 0.0, [], [], 0
+        n = R.randint(6, maxlen)
+        popped = False
+        for j in range(n):
+            if len(q) >= 3 and R.random() < 0.3:
+                ops.append(("pop",)); m = min(q); q.remove(m); now = m[0]
+                popped = True
+                continue
+            if popped and q and R.random() < 0.45:
+                a = R.choice(q)[0]
+                b = R.choice(q)[0]
+                ts = max(now, R.choice([a, a, min(a, b) + abs(a - b) / 2]))
+            else:
+                ts = max(last, now) + R.choice([0.0, 0.0, 1.0, 3.0, 4.0, 0.5])
+            ops.append(("sched", ts, tag)); q.append((ts, tag)); tag += 1
+            last = max(last, ts)
+        ops += [("len",)] + [("pop",)] * (len(q) + 1)
+        yield ops
+
+
 def el_long(R, n_ops, burst=0):
     """one long history: optionally a burst of `burst` schedules into an empty queue, then a long
     alternation with a small queue and many ties"""
@@ -240,6 +265,9 @@ def run_sim_class(chk, cls, scs, mons, variant=None, batch=250, tag=None):
         # ... and every ninth with the documented debug switch on as well (debug-level records are then built)
         if variant is None and "variant" not in sc and k % 9 == 7:
             sc["variant"] = {"execution_logging": True, "debug": True}
+        # ... and every eleventh with the profiling switch on
+        if variant is None and "variant" not in sc and k % 11 == 3:
+            sc["variant"] = {"profile": True}
     for i in range(0, len(scs), batch):
         part = scs[i:i + batch]
         for r in corr.corr_sims(part, variant=variant):
@@ -419,6 +447,7 @@ def check_C01(chk, R, S):
     run_sim_class(chk, "sim-timer-storm", [gen_timer_storm(R) for _ in range(max(12, S["sims"] // 20))], [M.mon_C01])
     run_sim_class(chk, "sim-decimal-ties", [gen_decimal_ties(R) for _ in range(max(60, S["sims"] // 5))], [M.mon_C01])
     run_sim_class(chk, "sim-external-requests", [gen_drive_scenario(R, ("settimer", "send", "bcast", "cancel")) for _ in range(max(60, S["sims"] // 5))], [M.mon_C01])
+    run_el_class(chk, "el-chronological", el_chrono(R, max(200, S["el_rand"] // 4)))
     chk.exhaustive = True
 
 
@@ -433,6 +462,7 @@ def check_C02(chk, R, S):
     prof = {"p_bounded": 1.0, "p_mob": 0.0, "p_steps": 0.1, "range": 1000.0, "fails": [0.0, 0.0, 0.5],
             "acts": ["settimer", "cancel", "send", "bcast", "flag", "goto"]}
     run_sim_class(chk, "sim-exhaustion", gen_many(R, S["sims"], prof), [M.mon_C02])
+    run_el_class(chk, "el-chronological", el_chrono(R, max(200, S["el_rand"] // 4)))
     chk.exhaustive = True
 
 
@@ -447,6 +477,7 @@ def check_C03(chk, R, S):
     run_sim_class(chk, "sim-bursts", [gen_burst(R) for _ in range(S["sims"])], [M.mon_C03])
     run_sim_class(chk, "sim-timer-rearm", [gen_rearm(R) for _ in range(S["sims"])], [M.mon_C03])
     run_sim_class(chk, "sim-decimal-ties", [gen_decimal_ties(R) for _ in range(max(60, S["sims"] // 5))], [M.mon_C03])
+    run_el_class(chk, "el-chronological", el_chrono(R, max(200, S["el_rand"] // 4)))
     chk.exhaustive = True
 
 
@@ -472,6 +503,36 @@ def gen_rearm(R, names=3):
     return {"handlers": ["T"] + (["R0"] if R.random() < 0.3 else []),
             "nodes": [{"pos": (float(i), 0.0, 0.0), "ty": 0} for i in range(nn)],
             "med": (1000.0, 0.0, 0.0), "mob": (1.0, 1.0, (0.0, 0.0, 0.0)), "asserts": [], "seed": R.randrange(1 << 30),
+            "dur": None, "maxit": None, "drv": ("run",), "script": script}
+
+
+def gen_watchdog(R):
+    """the restart-the-timeout idiom and what comes after it: inside the handler of timer N the node cancels N and sets it
+    again for later; before (or after) the re-armed N is due, another callback of the node -- another timer, a packet --
+    cancels N, sets it once more, or leaves it alone"""
+    nn = R.randint(1, 3)
+    script = []
+    for me in range(nn):
+        N, K = R.sample([0, 1, 2], 2)
+        t1 = R.choice([0.5, 1.0, 1.5])
+        d = R.choice([1.0, 2.0, 0.5])
+        t3 = t1 + d * R.choice([0.5, 0.5, 1.0, 1.5])      # before, at, after the re-armed timer is due
+        first = [("cancel", N), ("settimer", N, "rel", d)]
+        if R.random() < 0.3:
+            first = [("settimer", N, "rel", d)]                    # re-armed without the cancel
+        if R.random() < 0.2:
+            first = first + [("cancel", N), ("settimer", N, "rel", d)]   # twice in the same handler
+        later = R.choice([[("cancel", N)], [("cancel", N)], [("cancel", N), ("settimer", N, "rel", 1.0)], [("cancel", K)], []])
+        rules = [{"trig": ("init",), "nth": None, "acts": [("settimer", N, "abs", t1), ("settimer", K, "abs", t3)]
+                  + ([("settimer", N, "abs", t1)] if R.random() < 0.2 else [])},
+                 {"trig": ("timer", N), "nth": 0, "acts": first},
+                 {"trig": ("timer", K), "nth": 0, "acts": later}]
+        if nn > 1 and R.random() < 0.4:
+            rules.append({"trig": ("packet", None), "nth": 0, "acts": [("cancel", N)]})
+            rules[0]["acts"].append(("send", 100 + me, (me + 1) % nn))
+        script.append(rules)
+    return {"handlers": R.sample(["T", "C"], 2), "nodes": [{"pos": (float(i), 0.0, 0.0), "ty": 0} for i in range(nn)],
+            "med": (1000.0, R.choice([0.0, 1.25, 2.0]), 0.0), "mob": (1.0, 1.0, (0.0, 0.0, 0.0)), "asserts": [], "seed": R.randrange(1 << 30),
             "dur": None, "maxit": None, "drv": ("run",), "script": script}
 
 
@@ -739,7 +800,8 @@ def gen_drive_scenario(R, kinds=("settimer", "settimer", "cancel", "send")):
 def check_C07(chk, R, S):
     chk.rule = ("1-4 nodes x 3 timer names; set/cancel from init, timer, packet and telemetry callbacks, re-entrant "
                 "same-name cancel/set inside the firing handler, ties, past timers, timer storms, requests for one instant made at "
-                "different decimal times, sets/cancels issued from OUTSIDE callbacks (before the first step, between steps); the "
+                "different decimal times, sets/cancels issued from OUTSIDE callbacks (before the first step, between steps), the "
+                "restart-the-timeout idiom (cancel + set inside the timer's own handler) followed by a later cancel / set; the "
                 "abstract timer table is replayed along the implementation's trace")
     run_corpus(chk, [M.mon_C07])
     run_sim_class(chk, "sim-timer-rearm", [gen_rearm(R) for _ in range(S["sims"])], [M.mon_C07])
@@ -754,6 +816,7 @@ def check_C07(chk, R, S):
     run_sim_class(chk, "sim-timer-storm", [gen_timer_storm(R) for _ in range(max(12, S["sims"] // 20))], [M.mon_C07])
     run_sim_class(chk, "sim-decimal-ties", [gen_decimal_ties(R) for _ in range(max(60, S["sims"] // 5))], [M.mon_C07])
     run_sim_class(chk, "sim-external-requests", [gen_drive_scenario(R) for _ in range(max(100, S["sims"] // 2))], [M.mon_C07])
+    run_sim_class(chk, "sim-watchdog", [gen_watchdog(R) for _ in range(max(100, S["sims"] // 2))], [M.mon_C07])
 
 
 def check_C08(chk, R, S):
